@@ -18,6 +18,20 @@ const (
 	permStatePermitted
 )
 
+// cloneAddr copies an address that is kept beyond the call it was passed to:
+// the caller of WriteTo owns its net.Addr and may overwrite it for the next
+// call, which must not change the peer a permission or a channel is for.
+func cloneAddr(addr net.Addr) net.Addr {
+	switch a := addr.(type) {
+	case *net.UDPAddr:
+		return &net.UDPAddr{IP: append(net.IP(nil), a.IP...), Port: a.Port, Zone: a.Zone}
+	case *net.TCPAddr:
+		return &net.TCPAddr{IP: append(net.IP(nil), a.IP...), Port: a.Port, Zone: a.Zone}
+	default:
+		return addr
+	}
+}
+
 type permission struct {
 	addr  net.Addr
 	st    permState    // Thread-safe (atomic op)
@@ -41,7 +55,7 @@ type permissionMap struct {
 func (m *permissionMap) insert(addr net.Addr, p *permission) bool {
 	m.mutex.Lock()
 	defer m.mutex.Unlock()
-	p.addr = addr
+	p.addr = cloneAddr(addr)
 	m.permMap[ipnet.FingerprintAddr(addr)] = p
 
 	return true
